@@ -703,7 +703,7 @@ def case(args):
             if stop:
                 break
             before = after
-    except Exception:
+    except BaseException:      # incl. an escaped RequestHang: a dead pool worker would hang the check
         out['error'] = traceback.format_exc()
     return out
 
